@@ -120,9 +120,8 @@ SeqDeep ==
    PV("filter", <<>>, "one", <<9>>), P("take", <<2>>, <<>>), P("batch", <<2>>, <<>>), PV("shuffle", <<>>, "list", <<2, 1>>), P("cache", <<>>, <<>>), P("materialize", <<>>, <<>>),
    P("iter", <<>>, <<>>), P("index", <<-1>>, <<>>)}
 SeqDeeper ==
-  {P("getslice", <<0, 2, NoneI>>, <<>>), P("getslice", <<1, NoneI, NoneI>>, <<>>), P("add", <<>>, <<>>), PV("wrap_idx", <<>>, "varargs", <<0>>),
-   PV("filter", <<>>, "one", <<9>>), P("take", <<2>>, <<>>), PV("shuffle", <<>>, "list", <<2, 1>>), P("materialize", <<>>, <<>>), P("index", <<0>>, <<>>)}
-
+  {P("getslice", <<0, 2, NoneI>>, <<>>), P("add", <<>>, <<>>), PV("wrap_idx", <<>>, "varargs", <<0>>),
+   PV("filter", <<>>, "one", <<9>>), PV("shuffle", <<>>, "list", <<2, 1>>), P("materialize", <<>>, <<>>)}
 SeqQuick ==
   {P("getslice", <<0, 2, NoneI>>, <<>>), P("getslice", <<1, NoneI, NoneI>>, <<>>), P("add", <<>>, <<>>),
    PV("wrap_idx", <<>>, "varargs", <<-1, 0>>), PV("filter", <<>>, "one", <<9>>), P("take", <<2>>, <<>>),
